@@ -118,6 +118,29 @@ TARGET_OP_CLI = {'src_add': 'add', 'src_rm': 'rm', 'target_add': 'add_target', '
                  'extra_files_add': 'add_extra_files', 'extra_files_rm': 'rm_extra_files', 'info': 'info'}
 
 
+def cli_text(py: T.Any) -> T.Optional[str]:
+    """The textual value of the documented command line (`kwargs set target t install false`), None if there is none."""
+    if isinstance(py, bool):
+        return 'true' if py else 'false'
+    if isinstance(py, list) and len(py) == 1:
+        py = py[0]
+    if isinstance(py, str) and not py.startswith(('-', '@')):        # -x is an option, @x a response file for the command line
+        return py
+    return None
+
+
+def positional_ok(c: T.Dict[str, T.Any]) -> bool:
+    """Can the abstract command be written in the documented command-line form (every value is passed as text)?"""
+    op = c['op']
+    if any(w.startswith(('-', '@')) for w in [c['t']] + list(c['files']) + [x for o in c['opts'] for x in o]):
+        return False
+    if op in TARGET_OP_CLI or op in ('do_set', 'do_delete', 'kw_delete'):
+        return True
+    if op in ('kw_set', 'kw_add', 'kw_remove'):
+        return all(cli_text(k['py']) is not None for k in c['kws'])
+    return False
+
+
 def cli_args(c: T.Dict[str, T.Any]) -> T.List[str]:
     """Arguments after `meson rewrite --sourcedir D`."""
     op = c['op']
@@ -127,10 +150,10 @@ def cli_args(c: T.Dict[str, T.Any]) -> T.List[str]:
             if op == 'target_add':
                 pre = ['--type', c['kind']] + (['--subdir', c['dir']] if c['dir'] else [])
             return ['target'] + pre + [c['t'], TARGET_OP_CLI[op]] + list(c['files'])
-        if op in ('kw_set', 'kw_delete'):
+        if op in ('kw_set', 'kw_delete', 'kw_add', 'kw_remove'):
             flat: T.List[str] = []
             for k in c['kws']:
-                flat += [k['k']] + ([k['py']] if op == 'kw_set' else [])
+                flat += [k['k']] + ([T.cast(str, cli_text(k['py']))] if op != 'kw_delete' else [])
             return ['kwargs', op[3:], c['fn'], c['t']] + flat
         if op in ('do_set', 'do_delete'):
             flat = []
@@ -139,6 +162,15 @@ def cli_args(c: T.Dict[str, T.Any]) -> T.List[str]:
             return ['default-options', op[3:]] + flat
         raise MachineryError('no positional form for ' + op)
     return ['command', json.dumps([script_cmd(c)])]
+
+
+def as_command_line(spec: T.Dict[str, T.Any]) -> T.Optional[T.Dict[str, T.Any]]:
+    """The twin of a case: the same abstract commands, every one that has a command-line form given in that form (and the
+    others as JSON); None when nothing changes."""
+    cmds = [dict(c, cli='positional' if positional_ok(c) else 'json') for c in spec['cmds']]
+    if all(a['cli'] == b['cli'] for a, b in zip(cmds, spec['cmds'])):
+        return None
+    return dict(spec, id=spec['id'] + ':cli', cmds=cmds)
 
 
 def script_cmd(c: T.Dict[str, T.Any]) -> T.Dict[str, T.Any]:
@@ -217,11 +249,7 @@ class ProjGen:
 
     # -- expressions
     def expr(self, ty: str) -> T.List[Tok]:
-        # int.to_string(fill: n) anywhere in a build file makes every rewriter command fail (a recorded finding): keep it rare
-        while True:
-            e = self._expr(ty)
-            if not any(t['t'] == 'id' and t['s'] == 'fill' for t in e) or self.r.random() < 0.05:
-                return e
+        return self._expr(ty)
 
     def _expr(self, ty: str) -> T.List[Tok]:
         r = self.r
@@ -247,6 +275,13 @@ class ProjGen:
         if names and self.r.random() < 0.2:
             out.append(S('comma'))
         return out + [S('rbracket')]
+
+    def nested_list(self, outer: T.Sequence[str], inner: T.Sequence[str]) -> T.List[Tok]:
+        """['a', ['b']]"""
+        out = [S('lbracket')]
+        for n in outer:
+            out += [string(n), S('comma')]
+        return out + self.strlist(inner, False) + [S('rbracket')]
 
     def files_call(self, names: T.Sequence[str]) -> T.List[Tok]:
         inner: T.List[Tok] = []
@@ -285,7 +320,8 @@ class ProjGen:
         kind = r.choice(['executable', 'executable', 'static_library', 'library', 'shared_library', 'both_libraries', 'shared_module'])
         srcs = r.sample(SRC_POOL, r.choice([1, 2, 2, 3]))
         args: T.List[T.List[Tok]] = [[string(name)]]
-        form = r.choice(['inline', 'array', 'var', 'files', 'filesvar', 'mixed', 'kw', 'plus', 'concat']) if not in_if else r.choice(['inline', 'array', 'files'])
+        form = r.choice(['inline', 'array', 'var', 'files', 'filesvar', 'mixed', 'kw', 'plus', 'concat', 'arrpos', 'arrpos', 'nested']) if not in_if \
+            else r.choice(['inline', 'array', 'files', 'arrpos'])
         src_kw: T.Optional[T.List[Tok]] = None
         all_srcs = list(srcs)
         if shared is not None:
@@ -295,8 +331,25 @@ class ProjGen:
             form = r.choice(['inline', 'array', 'files'])
             if not srcs:
                 form = 'none'
+        multi: T.List[T.List[str]] = []              # groups of sources held by different nodes of the same statement
+        if form in ('arrpos', 'nested') and len(srcs) < 2:
+            form = 'array'
         if form == 'inline':
             args += [[string(s)] for s in srcs]
+        elif form == 'arrpos':
+            # an array (or files()) argument and plain positional arguments side by side
+            k = r.randint(1, len(srcs) - 1)
+            first = self.strlist(srcs[:k]) if r.random() < 0.7 else self.files_call(srcs[:k])
+            parts = [first] + [[string(x)] for x in srcs[k:]]
+            if r.random() < 0.4:
+                parts = parts[1:] + parts[:1]
+            args += parts
+            multi = [srcs[:k], srcs[k:]]
+        elif form == 'nested':
+            # ['a.c', ['b.c']]
+            k = r.randint(1, len(srcs) - 1)
+            args.append(self.nested_list(srcs[:k], srcs[k:]))
+            multi = [srcs[:k], srcs[k:]]
         elif form == 'array':
             args.append(self.strlist(srcs))
         elif form == 'var':
@@ -341,12 +394,18 @@ class ProjGen:
         if src_kw is not None:
             kws.append(('sources', src_kw))
         extras: T.List[str] = []
+        multi_extra: T.List[T.List[str]] = []
         c = r.random()
         if c < 0.45:
             extras = r.sample(EXTRA_POOL, r.choice([1, 2]))
-            ef = r.choice(['array', 'var', 'single']) if not in_if else 'array'
+            ef = r.choice(['array', 'var', 'single', 'nested']) if not in_if else 'array'
+            if ef == 'nested' and len(extras) < 2:
+                ef = 'array'
             if ef == 'array':
                 kws.append(('extra_files', self.strlist(extras)))
+            elif ef == 'nested':
+                kws.append(('extra_files', self.nested_list(extras[:1], extras[1:])))
+                multi_extra = [extras[:1], extras[1:]]
             elif ef == 'var':
                 v = self.fresh('ef')
                 pre.append([ident(v), S('assign')] + self.strlist(extras))
@@ -391,7 +450,7 @@ class ProjGen:
         spare = [k for k in B_STR if k not in used]
         spanning_last = False
         if spare and r.random() < 0.22:
-            lit = r.choice(BLANK_BEFORE_NEWLINE) if r.random() < 0.12 else r.choice(SPANNING)
+            lit = r.choice(BLANK_BEFORE_NEWLINE) if r.random() < 0.3 else r.choice(SPANNING)
             kws.append((r.choice(spare), text_to_tokens(lit, self.mp)))
             spanning_last = True
         call = [ident(kind), S('lparen')]
@@ -412,6 +471,8 @@ class ProjGen:
         self.targets.append({'name': name, 'var': var, 'kind': kind, 'dir': subdir, 'srcs': [os.path.join(subdir, s) for s in all_srcs],
                              'extras': [os.path.join(subdir, s) for s in extras], 'referenced': False, 'kwkeys': sorted(used),
                              'shared': shared is not None, 'libs_before': libs_before,
+                             'multi': [[os.path.join(subdir, x) for x in g] for g in multi],
+                             'multi_extra': [[os.path.join(subdir, x) for x in g] for g in multi_extra],
                              'scalar_extra': any(k == 'extra_files' and len(e) == 1 and e[0]['t'] == 'string' for k, e in kws)})
         return pre + [call]
 
@@ -582,6 +643,9 @@ def gen_commands(rnd: random.Random, proj: T.Dict[str, T.Any]) -> T.List[T.Dict[
         elif c < 0.30:
             fs = r.sample(pool, r.choice([1, 1, 2]))
             out.append(acmd('src_add', address(t), files=fs, cli=cli(True)))
+        elif c < 0.40 and t['multi'] and r.random() < 0.7:
+            # one command that edits two nodes of the same statement (an inner array and the call, or two arrays)
+            out.append(acmd('src_rm', address(t), files=[r.choice(g) for g in t['multi']], cli=cli(True)))
         elif c < 0.40:
             fs = r.sample(t['srcs'], min(len(t['srcs']), r.choice([1, 1, 2])))
             if r.random() < 0.15:
@@ -593,6 +657,9 @@ def gen_commands(rnd: random.Random, proj: T.Dict[str, T.Any]) -> T.List[T.Dict[
         elif c < 0.53:
             if not t['extras'] and r.random() < 0.15:
                 out.append(acmd('extra_files_rm', address(t), files=[os.path.join(t['dir'], r.choice(EXTRA_POOL))], cli=cli(True)))
+                continue
+            if t['multi_extra'] and r.random() < 0.8:
+                out.append(acmd('extra_files_rm', address(t), files=[r.choice(g) for g in t['multi_extra']], cli=cli(True)))
                 continue
             if t['scalar_extra']:
                 continue                    # a single string as extra_files: removal is refused with a warning (not pinned by docs or tests)
@@ -667,6 +734,12 @@ def gen_commands(rnd: random.Random, proj: T.Dict[str, T.Any]) -> T.List[T.Dict[
         out.append(acmd(r.choice(['src_add', 'target_rm', 'info', 'kw_set']), 'no_such_target', files=['a.c'],
                         kws=[{'k': 'install', 'ty': 'val', 'py': True}]))
         out = out[-3:]
+    # the documented command-line form (textual values: true / false, one list element, names) for a share of the commands
+    for c in out:
+        if not positional_ok(c):
+            c['cli'] = 'json'
+        elif c['cli'] == 'json' and r.random() < 0.2:
+            c['cli'] = 'positional'
     return out
 
 
@@ -896,6 +969,10 @@ e4 = executable('e4', src4, c_args : ['-DA', '''p
 q'''], name_suffix : f'''one
 two''')
 after4 = [1, 2]
+e5 = executable('e5', ['a.c'], 'b.c', 'c.c', extra_files : ['README', ['NOTES.md']], install : true)
+after5 = 3
+executable('e6', files('d.c'), ['e.c', ['a.c']], 'b.c')
+after6 = after5 + 1
 subdir('sub')
 message('done')
 """
@@ -908,7 +985,7 @@ def fixed_cases() -> T.List[T.Dict[str, T.Any]]:
     A = acmd
     files = {'meson.build': FIXED_ROOT, 'sub/meson.build': FIXED_SUB}
     touch = ['a.c', 'b.c', 'c.c', 'd.c', 'e.c', 'README', 'NOTES.md', 'sub/s.c', 'sub/t.c', 'sub/u.c', NEWLINE_FILE]
-    names = ['l1', 'e1', 'e2', 'e3', 'e4', 's1', 'n1']
+    names = ['l1', 'e1', 'e2', 'e3', 'e4', 'e5', 'e6', 's1', 'n1']
     kw = lambda k, v: {'k': k, 'ty': 'val', 'py': v}  # noqa: E731
     seqs = [
         [A('kw_set', 'e1', kws=[kw('build_by_default', False), kw('install', False)]), A('kw_delete', 'e1', kws=[kw('install', None)]), A('src_add', 'e1', files=['d.c'])],
@@ -931,6 +1008,17 @@ def fixed_cases() -> T.List[T.Dict[str, T.Any]]:
         # options whose name is the tail of another option's name
         [A('do_set', opts=[('bindir', 'b2')]), A('do_delete', opts=[('debug', '')], cli='positional'), A('do_delete', opts=[('opt', '')])],
         [A('do_set', opts=[('libdir', 'lib'), ('debug', 'false')]), A('do_delete', opts=[('bindir', ''), ('libdir', '')])],
+        # one command that changes an inner array and the enclosing call (or two nested arrays), another statement right behind
+        [A('src_rm', 'e5', files=['a.c', 'b.c'], cli='positional'), A('extra_files_rm', 'e5', files=['README', 'NOTES.md']),
+         A('src_add', 'e5', files=['d.c', 'a.c'])],
+        [A('extra_files_rm', 'e5', files=['NOTES.md', 'README'], cli='positional'), A('src_rm', 'e5', files=['c.c', 'a.c'])],
+        [A('src_rm', 'e6', files=['a.c', 'e.c', 'b.c']), A('src_add', 'e6', files=['c.c']), A('src_rm', 'e6', files=['d.c', 'c.c'], cli='positional')],
+        # textual values of the command line
+        [A('kw_set', 'e5', kws=[kw('install', False), kw('pie', True)], cli='positional'), A('kw_set', 'e1', kws=[kw('gui_app', False)], cli='positional'),
+         A('kw_add', '/', fn='project', kws=[kw('license', ['BSD'])], cli='positional')],
+        [A('kw_set', 'e1', kws=[{'k': 'link_with', 'ty': 'id', 'py': 'lib'}], cli='positional'),
+         A('kw_remove', 'e1', kws=[{'k': 'link_with', 'ty': 'ids', 'py': ['lib']}], cli='positional'),
+         A('kw_remove', '/', fn='project', kws=[kw('license', 'MIT')], cli='positional')],
     ]
     out = [{'id': f'fixed:{i}', 'files': files, 'touch': touch, 'cmds': cmds, 'names': names} for i, cmds in enumerate(seqs)]
     out.append({'id': 'fixed:blank', 'files': {'meson.build': FIXED_BLANK}, 'touch': ['a.c'], 'names': ['b1'],
@@ -1135,7 +1223,7 @@ def main(chk: Check) -> None:
     cfg = (FAM / 'Rewriter_MC.cfg').read_text().replace('MaxLen = 3', 'MaxLen = %d' % (3 if quick else 4))
     res = run_tlc(FAM, 'Rewriter_MC', cfg_text=cfg, timeout=3000, allow_violation=False)
     chk.add_tlc('Rewriter_MC', res)
-    ngen = int(os.environ.get('C17_NGEN', 200 if quick else 2800))          # development knobs; the tiers use the defaults
+    ngen = int(os.environ.get('C17_NGEN', 160 if quick else 2500))          # development knobs; the tiers use the defaults
     nmodel = int(os.environ.get('C17_NMODEL', 50 if quick else 450))
     chk.rule = ('a case is one generated (or model) project with a sequence of 1-3 rewriter commands run through the real CLI; it is '
                 'non-trivial when at least one command changed a build file and every step was judged (distinct (project, commands) pairs).')
@@ -1145,8 +1233,11 @@ def main(chk: Check) -> None:
     cand = [gen_spec(chk.seed, it, mods[0]) for it in range(int(ngen * 1.4) + 4)]
     invalid = prefilter(chk, cand, mods)
     chk.extra['generated_projects_rejected_by_reference_evaluator'] = f'{len(invalid)}/{len(cand)}'
-    specs += [sp for sp in cand if sp['id'] not in invalid][:ngen]
-    specs += fixed_cases()
+    chosen = [sp for sp in cand if sp['id'] not in invalid][:ngen]
+    # twins: the same abstract commands once more in the command-line form; both are judged by the same rule book
+    twins = [tw for tw in (as_command_line(sp) for sp in chosen[::5] + fixed_cases()) if tw is not None]
+    chk.extra['command_line_twins'] = len(twins)
+    specs += chosen + fixed_cases() + twins
     nw = common.NCPU
     random.Random(chk.seed).shuffle(specs)
     jobs = [list(part) for part in common.chunks(specs, max(1, len(specs) // (nw * 3) + 1))]
